@@ -240,3 +240,16 @@ func ReadOverlayDir(srcRoot, repoDir string) (map[string][]byte, error) {
 	}
 	return ov, err
 }
+
+// hasFunction reports whether the program contains a function or method with this full name.
+func (in *Interp) hasFunction(name string) bool {
+	in.mergeMu.Lock()
+	defer in.mergeMu.Unlock()
+	if in.fnNames == nil {
+		in.fnNames = map[string]bool{}
+		for fn := range ssautil.AllFunctions(in.Prog) {
+			in.fnNames[fn.String()] = true
+		}
+	}
+	return in.fnNames[name]
+}
